@@ -462,7 +462,12 @@ fn typing(h: &H, idx: u64, rng: &mut Rng) {
         req = ref_integer(t);
     }
     if rng.chance(0.5) {
-        match rng.below(4) {
+        match rng.below(5) {
+            4 => {
+                // present with an empty value (only possible as the last word): true
+                words.push("flag=".into());
+                flag = true;
+            }
             0 => {
                 words.push("flag".into());
                 flag = true;
